@@ -5,7 +5,7 @@
 set -u
 D="$(cd "$1" && pwd)"; shift
 TIER="${TIER:-quick}"
-cd /verif || exit 2
+cd "$(dirname "$0")/.." || exit 2
 if [ -n "$(git -C /repo status --porcelain --untracked-files=no)" ]; then echo "/repo not clean" >&2; exit 2; fi
 git -C /repo apply "$D/patch.diff" || { echo "patch does not apply" >&2; exit 2; }
 trap 'git -C /repo checkout -q -- .' EXIT
